@@ -6,19 +6,37 @@ use crate::sim::{Monitor, Violation};
 use anchor_lang::prelude::Pubkey;
 use marginfi_type_crate::types::{Balance, MarginfiAccount};
 
+pub mod c01;
 pub mod c02;
+pub mod c03;
 pub mod c04;
+pub mod c05;
+pub mod c06;
+pub mod c07;
 pub mod c16;
+pub mod c17;
 
 pub fn make(property: &str) -> Vec<Box<dyn Monitor>> {
     match property {
         "C02" => vec![Box::new(c02::C02::default())],
         "C16" => vec![Box::new(c16::C16::default())],
         "C04" => vec![Box::new(c04::C04::default())],
+        "C01" => vec![Box::new(c01::C01::default())],
+        "C03" => vec![Box::new(c03::C03::default())],
+        "C06" => vec![Box::new(c06::C06::default())],
+        "C17" => vec![Box::new(c17::C17::default())],
+        "C05" => vec![Box::new(c05::C05::default())],
+        "C07" => vec![Box::new(c07::C07::default())],
         "ALL" => vec![
             Box::new(c02::C02::default()),
             Box::new(c16::C16::default()),
             Box::new(c04::C04::default()),
+            Box::new(c01::C01::default()),
+            Box::new(c03::C03::default()),
+            Box::new(c06::C06::default()),
+            Box::new(c17::C17::default()),
+            Box::new(c05::C05::default()),
+            Box::new(c07::C07::default()),
         ],
         _ => vec![],
     }
